@@ -60,6 +60,7 @@ func runSched(prop string, sc *explore.Scenario, sp schedSpec, env *fw.Env, want
 	}
 	res.Count("decision_points", st.Points)
 	res.Count("cut_by_hb_cache", st.Cached)
+	res.Count("skipped_by_post_state_prediction", st.Skipped)
 	res.Count("distinct_outcomes:"+sc.Name, len(st.Outcomes))
 	if sp.Shard == 0 {
 		res.Sample(map[string]any{"scenario": sc.Name, "bound": sp.Bound, "outcomes": st.Outcomes, "trace_excerpt": head(st.Sample, 24)})
